@@ -37,6 +37,7 @@ fn main() {
             NCfg { defer: true, addrs: 2, remote_sends: 0, net_sends: 1, advances: 2, ..base.clone() },
             // the environment refuses the close datagram of a disconnect
             NCfg { send_faults: true, addrs: 2, disconnects: 2, remote_sends: 0, net_sends: 1, advances: 0, ..base.clone() },
+            NCfg { send_faults: true, defer: true, addrs: 2, disconnects: 1, remote_sends: 0, net_sends: 0, advances: 0, ..base.clone() },
             // the peer id counter comes round onto live peers
             NCfg { wraps: 1, addrs: 3, remote_sends: 0, net_sends: 0, advances: 0, disconnects: 1, ..base.clone() },
             NCfg { accepting: false, wraps: 1, addrs: 3, net_connects: 3, remote_sends: 0, net_sends: 0, advances: 0, ..base.clone() },
